@@ -212,20 +212,14 @@ def run(repo: Repo, chk: Check) -> None:
     chk.set_clause('C09.4')
     table_prefixes = {r[0] for r in rows}
     nvalid = 0
-    for fi in repo.iter_functions(ENC + '.'):
-        for call in [n for n in ast.walk(fi.node) if isinstance(n, ast.Call)]:
-            if dotted(call.func) == '_validate':
-                for kw in call.keywords:
-                    if kw.arg == 'prefixes':
-                        try:
-                            pl = repo.fold(kw.value, mi)
-                        except NotConstant:
-                            raise AnalysisError(f'validator prefix list not constant in {fi.qualname}')
-                        nvalid += 1
-                        missing = [p for p in pl if p not in table_prefixes]
-                        chk.ob('R-TABLE', fi.qualname, not missing, 'validator-prefixes', fi.loc,
-                               {'prefixes': [p.decode() for p in pl]},
-                               what=f'validator accepts prefixes without a table row: {missing}')
+    from ..validators import all_validators
+
+    for vname, pl in sorted(all_validators(repo).items()):
+        fi = repo.func(f'{ENC}.{vname}')
+        nvalid += 1
+        missing = [p for p in pl if p not in table_prefixes]
+        chk.ob('R-TABLE', fi.qualname, not missing, 'validator-prefixes', fi.loc, {'prefixes': [p.decode() for p in pl]},
+               what=f'validator accepts prefixes without a table row: {missing}')
     chk.minimum('validators', nvalid, 9)
     v = repo.func(f'{ENC}._validate')
     # decided on abstract strings of which the first bytes and the bytes occurring later are known: accepted (and handed to base58_decode, which
